@@ -145,6 +145,8 @@ package engine
 //@   ensures @quiet result0 && result1 == nil ==> unchanged(en.execd, en.exit, en.exiting)
 // the temporary stack level of the entry function does not cost the session its page index (C07)
 //@   ensures[C07,C02] @pagekept en.st.SizeIdx == old(en.st.SizeIdx)
+// ... nor the value it loaded last, which is the exit text of a session that ends (C07; known finding H34 when an entry function is configured)
+//@   ensures[C07] @lastkept result0 && result1 == nil ==> vm.cac(en.ca).LastValue == old(vm.cac(en.ca).LastValue)
 //@   postulate result1 == nil ==> engOk(en)
 //@   ensures @nofirst en.first == nil ==> result0 && result1 == nil
 //@   ensures[C06] @blocked old(fl(en, state.FLAG_TERMINATE)) ==> count(extcalls) == old(count(extcalls)) && count(codegets) == old(count(codegets))
